@@ -53,7 +53,7 @@ ALL = ("ev", "probe", "tap", "S", "L", "O")
 def cases_for(prop, tier, seed):
     g = gen.G(seed * 1000003 + int(prop[1:]))
     T = tier == "thorough"
-    k = 40 if T else 1
+    k = 40 if T else 8
     if prop == "C01":
         return (gen.fam_malformed(g, "C01-mal", 150 * k) + gen.fam_rawhot(g, "C01-raw", 10) +
                 gen.fam_single_ops(g, "C01-rude", scripts=[g.malformed() for _ in range(6 * (3 if T else 1))], source="rude") +
